@@ -29,13 +29,13 @@ func VerifNew(sdb *state.ChainStateDB) *MemPool {
 // VerifInit does what AfterStart does with the best block: setStateDB(best).
 func (mp *MemPool) VerifInit(best *types.Block) (bool, bool) { return mp.setStateDB(best) }
 
-func (mp *MemPool) VerifPut(tx types.Transaction) error           { return mp.put(tx) }
-func (mp *MemPool) VerifRemoveTx(tx *types.Tx) error              { return mp.removeTx(tx) }
-func (mp *MemPool) VerifBlockArrival(b *types.Block) error        { return mp.removeOnBlockArrival(b) }
-func (mp *MemPool) VerifEvict()                                   { mp.evictTransactions() }
-func (mp *MemPool) VerifExist(hash []byte) *types.Tx              { return mp.exist(hash) }
+func (mp *MemPool) VerifPut(tx types.Transaction) error              { return mp.put(tx) }
+func (mp *MemPool) VerifRemoveTx(tx *types.Tx) error                 { return mp.removeTx(tx) }
+func (mp *MemPool) VerifBlockArrival(b *types.Block) error           { return mp.removeOnBlockArrival(b) }
+func (mp *MemPool) VerifEvict()                                      { mp.evictTransactions() }
+func (mp *MemPool) VerifExist(hash []byte) *types.Tx                 { return mp.exist(hash) }
 func (mp *MemPool) VerifGet(max uint32) ([]types.Transaction, error) { return mp.get(max) }
-func (mp *MemPool) VerifListHash(max int) ([]types.TxID, bool)    { return mp.listHash(max) }
+func (mp *MemPool) VerifListHash(max int) ([]types.TxID, bool)       { return mp.listHash(max) }
 
 // VerifVerifyTx is the front end's first step (TxVerifier.Receive: exist, verifyTx, put).
 func (mp *MemPool) VerifVerifyTx(tx types.Transaction) error { return mp.verifyTx(tx) }
